@@ -24,7 +24,7 @@ class Case:
 
 class FnSpec:
     def __init__(self, fid, file, name, sig=None, atoms=('Fq',), cases=None, post=None, extra=None,
-                 prop=(), doc='', max_paths=400):
+                 prop=(), doc='', max_paths=400, hook=None, oracle=None, pre_num=None):
         self.fid = fid            # obligation id stem, e.g. 'fq2::mul_inplace'
         self.file = file
         self.name = name          # regex on the normalised short name
@@ -36,6 +36,9 @@ class FnSpec:
         self.prop = prop          # property ids this function's obligations serve
         self.doc = doc
         self.max_paths = max_paths
+        self.hook = hook          # (driver fn name, [arg types], ret type | 'opt:<ty>' | 'bool')
+        self.oracle = oracle      # f(Algebra, *args) -> value ; shared by the symbolic post and the numeric replay oracle
+        self.pre_num = pre_num    # numeric input filter / shaper for functions with preconditions
 
 class Result:
     def __init__(self, fid):
@@ -185,9 +188,9 @@ def ref(v):
     return ('ref', v)
 
 def expect_value(ty, f):
-    """post: return value equals f(*args) (a tower value of type ty)"""
+    """post: return value equals f(SYM, *args) (a tower value of type ty)"""
     def post(case, st, ret, interp):
-        exp = f(*[unref(interp, st, a) for a in case.args])
+        exp = f(SYM, *[unref(interp, st, a) for a in case.args])
         ret = unref(interp, st, ret)
         return [('post', SYM.eq_components(ty, ret, exp))]
     return post
